@@ -6,7 +6,7 @@ import multiprocessing as mp
 import time
 from typing import Any
 
-from .. import semgen, semrun
+from .. import semfam, semgen, semrun
 from ..runner import Check
 from ..translate import constraints as tconstraints
 
@@ -109,8 +109,14 @@ def _reject_reason(err: str) -> str:
 
 
 def eval_pair(task: tuple) -> dict:
-    """one (document, style): baseline vs every variant, on the instance corpus of the document"""
-    doc, style, variants = task
+    """one (document, style): baseline vs every variant, on the instance corpus of the document.
+    With a fourth component `{"openapi": spec, "root": class}` the two runs read the OpenAPI document `spec`
+    (scopes schemas + paths + parameters) and the class under test is `root` ("*Suffix": found by its suffix);
+    `doc` is then the JSON-Schema document that says what that class accepts (the corpus is derived from it)."""
+    doc, style, variants = task[:3]
+    oa = task[3] if len(task) > 3 else None
+    src = oa["openapi"] if oa else doc
+    bkw = {"input_file_type": "openapi", "root_name": oa["root"]} if oa else {}
     out: dict[str, Any] = {"failures": [], "hits": {}, "evals": 0, "distinct": [], "sample": None}
 
     def hit(k: str) -> None:
@@ -126,21 +132,24 @@ def eval_pair(task: tuple) -> dict:
     for inst in insts[:3]:
         muts += semgen.mutations(doc, inst)
     corpus = [(i, None) for i in insts] + [(m.instance, m) for m in muts]
-    base = semrun.build(doc, style, {})
+    base = semrun.build(src, style, {}, **bkw)
     out["evals"] += 1
     if not base.ok:
         hit("baseline_not_built")
         return out
     try:
         bvec = [base.validate(i)[0] for i, _ in corpus]
-        top_names = ["Model", *list((doc.get("definitions") or {}).keys())]
+        top_names = [base.root_name] if oa else ["Model", *list((doc.get("definitions") or {}).keys())]
         bschemas = {n: _class_schema(base, n) for n in top_names}
         for name, gopts, hopts in variants:
             out["evals"] += 1
             hit(f"option:{name}")
             cls0 = {"option": name, "style": style, "cause": doc_cause, "array_def": arr_def}
             inp = {"doc": doc, "style": style, "option": name}
-            v = semrun.build(doc, style, gopts, formatters=hopts.get("formatters"), target=hopts.get("target"))
+            if oa:
+                cls0["input"] = "openapi"
+                inp["openapi"] = oa
+            v = semrun.build(src, style, gopts, formatters=hopts.get("formatters"), target=hopts.get("target"), **bkw)
             if not v.ok:
                 out["failures"].append(({**cls0, "oracle": "variant_not_built", "keyword": "none", "location": "none", "direction": "none", "error": error_class(v.error, v.code)}, inp, f"baseline builds, variant does not: {v.error[:300]}"))
                 continue
@@ -234,6 +243,85 @@ def campaign_random(ck: Check, n: int) -> None:
     camp.wall_s = time.time() - t0
 
 
+def campaign_openapi(ck: Check, n: int) -> None:
+    """the same differential on OpenAPI input with the scopes schemas + paths + parameters: the query parameters of
+    an operation — declared with `schema:` or with `content: {<media type>: {schema: …}}` — are generated as a model
+    (`…ParametersQuery`); that model and a component schema must accept / reject / report the same under every option"""
+    camp = ck.campaign("differential oracle between two REAL runs, family: OpenAPI documents (scopes schemas+paths+parameters), query parameters declared with `schema:` and with `content:`, arrays / strings / numbers with constraints: baseline vs each option × 2 styles")
+    t0 = time.time()
+    rng = ck.rng.fork("fam-openapi")
+    off = rng.below(60)
+    tasks = []
+    for i in range(n):
+        spec, feats, classes = semfam.openapi_params_doc(rng.fork(str(i)), off + i)
+        for f in feats:
+            camp.hit(f"feature:{f}")
+        for st in STYLES:
+            for root, jdoc in classes:
+                tasks.append((jdoc, st, VARIANTS, {"openapi": spec, "root": root}))
+    run_tasks(ck, camp, tasks)
+    camp.wall_s = time.time() - t0
+
+
+def campaign_openapi_stage1(ck: Check, n: int) -> None:
+    """the query-parameter model of an operation IS the class of the object schema {properties: the parameters'
+    schemas, required: the required parameters}: stage 1 of the Lean model (`tr`, with `fieldCons` deciding where the
+    constraints go) against the real OpenAPI parser, for parameters declared with `schema:` and with `content:`,
+    both styles × the three routings"""
+    from .. import semlean
+
+    camp = ck.campaign("sem.tr of {properties: parameter schemas} vs the …ParametersQuery class of OpenAPIParser(...).parse_raw() (parameters with `schema:` and `content:`), 2 styles × 3 routings")
+    t0 = time.time()
+    rng = ck.rng.fork("fam-openapi-stage1")
+    off = rng.below(60)
+    reqs, meta = [], []
+    for i in range(n):
+        spec, feats, classes = semfam.openapi_params_doc(rng.fork(str(i)), off + i)
+        qdoc = classes[0][1]
+        try:
+            ssx = semlean.schema_sx(semlean.body_of(qdoc), top=True)
+        except semlean.Unmodelled as e:
+            camp.unmodelled += 1
+            camp.hit(f"unmodelled:{str(e)[:30]}")
+            continue
+        for f in feats:
+            camp.hit(f"feature:{f}")
+        for st in STYLES:
+            for r in ("contype", "field", "annotated"):
+                reqs.append(f"sem.tr {st} {r} top {ssx}")
+                meta.append((spec, qdoc, st, r))
+    replies = ck.driver.run(reqs)
+    for (spec, qdoc, st, r), rep in zip(meta, replies):
+        camp.evaluations += 1
+        if not rep.startswith("ok "):
+            ck.infra_errors.append(f"driver reply {rep!r} for sem.tr")
+            continue
+        try:
+            ri = semlean.RealIR(spec, st, r, openapi=True)
+            dm = ri.model_by_suffix("ParametersQuery")
+            if dm is None:
+                camp.unmodelled += 1
+                camp.hit("no-parameters-class")
+                continue
+            real = ri.dump_model(dm)
+        except semlean.Unmodelled as e:
+            camp.unmodelled += 1
+            camp.hit(f"unmodelled:{str(e)[:30]}")
+            continue
+        except Exception as e:  # noqa: BLE001
+            camp.unmodelled += 1
+            camp.hit(f"parser-raised:{type(e).__name__}")
+            continue
+        model = semlean.canon_ty(semlean.parse_sx(rep[3:])[0])
+        camp.hit(f"{st}/{r}")
+        camp.distinct.add(hash((semgen.canon(spec), st, r)))
+        if model != real:
+            ck.disagree(camp, {"openapi": spec, "style": st, "routing": r}, model, real)
+        elif len(camp.samples) < 2:
+            camp.samples.append({"openapi": spec, "style": st, "routing": r, "ir": model})
+    camp.wall_s = time.time() - t0
+
+
 def campaign_reuse(ck: Check, n: int) -> None:
     """`reuse_merge_sound` needs the two classes to be the same class. What the real pass merges is decided by
     its key (rendered text + imports): whenever it merges two named definitions, stage 1 of the model must give
@@ -290,6 +378,11 @@ def search(ck: Check) -> None:
         doc, _ = semgen.gen_doc(rng.fork(str(i)), semgen.GenCfg(draft4=(i % 5 == 0)))
         for st in STYLES:
             tasks.append((doc, st, VARIANTS))
+    for i in range(30):
+        spec, _f, classes = semfam.openapi_params_doc(rng.fork(f"oa{i}"), i)
+        for st in STYLES:
+            for root, jdoc in classes[:1]:
+                tasks.append((jdoc, st, VARIANTS, {"openapi": spec, "root": root}))
     run_tasks(ck, camp, tasks)
 
 
@@ -297,7 +390,7 @@ def known_findings(ck: Check) -> None:
     for f in ck.findings:
         w = f["witness"]
         variants = [v for v in VARIANTS if v[0] == w["option"]]
-        res = eval_pair((w["doc"], w["style"], variants))
+        res = eval_pair((w["doc"], w["style"], variants, *([w["openapi"]] if "openapi" in w else [])))
         hits = [c for c, _i, _o in res["failures"] if all(c.get(k) == v or (isinstance(v, list) and c.get(k) in v) for k, v in f["match"].items())]
         if hits:
             ck.known(f["id"], f["what"])
@@ -320,6 +413,8 @@ def run(ck: Check) -> None:
     campaign_reuse(ck, 40 if quick else 400)
     campaign_focused(ck)
     campaign_random(ck, 70 if quick else 600)
+    campaign_openapi_stage1(ck, 30 if quick else 300)
+    campaign_openapi(ck, 10 if quick else 120)
     ck.search_hooks.append(search)
     known_findings(ck)
 
@@ -331,7 +426,7 @@ def replay(ck: Check, path: str) -> int:
     camp = ck.campaign("replay")
     if "doc" in inp:
         variants = [v for v in VARIANTS if v[0] == inp.get("option")] or VARIANTS
-        res = eval_pair((inp["doc"], inp.get("style", "v2"), variants))
+        res = eval_pair((inp["doc"], inp.get("style", "v2"), variants, *([inp["openapi"]] if "openapi" in inp else [])))
         camp.evaluations += res["evals"]
         for cls, i2, obs in res["failures"]:
             ck.fail(cls, i2, obs)
